@@ -624,6 +624,34 @@ FrontOf(lx, dv) ==
   LET pr == Parse(KindsOf(lx.toks), dv) IN
   [ok |-> lx.ok /\ pr.ok, lexErr |-> ~lx.ok /\ (pr.ok \/ pr.errTok > Len(lx.toks)), pr |-> pr]
 
+\* ------------------------------------------------------------------ Unspecified (DESIGN 4.2)
+\* Inputs on which the editions disagree, or which the edition's own productions leave open.
+\* Nothing is asserted about them except "no panic"; every vector carries the reason.
+\*   number_followed_by_digit_name_or_dot   `01`, `1a`, `1.`, `1.5.`, `1e`: longest match of the
+\*       lexical grammar yields a number token directly followed by a digit, a name start or
+\*       `.`; later editions forbid this by look-ahead, the reference lexers report an error
+\*   empty_list_in_type_system_definition   `type T {}`, `enum E {}`, `input I {}`, `interface I {}`
+\*   description_before_directive_definition  `"d" directive @x on FIELD`
+\*   description_after_extend               `extend "d" type T {f: Int}`
+\*   enum_value_named_true_false_null       `enum E { true }`
+\*   variable_in_type_system_directive      `type T @d(a: $v) {f: Int}`
+\* Not expressible as an input class, therefore handled where the observation is compared:
+\*   the column UNIT on lines with non-ASCII characters (LineCols offers byte, code point, UTF-16);
+\*   whether the Document node's location includes leading / trailing ignored characters.
+UnspecifiedReasons == {"number_followed_by_digit_name_or_dot", "empty_list_in_type_system_definition",
+                       "description_before_directive_definition", "description_after_extend",
+                       "enum_value_named_true_false_null", "variable_in_type_system_directive"}
+\* of a token-kind string
+UnspecifiedToks(t) == Parse(t, {}).un
+\* of a text: lx = Lex(chars), fr = FrontOf(lx, {}); only lexemes the parser gets to see count
+UnspecifiedText(lx, fr) ==
+  LET n == Len(lx.toks)
+      perr == ~fr.ok /\ ~fr.lexErr
+      reach == IF perr /\ fr.pr.errTok <= n THEN fr.pr.errTok ELSE n IN
+  IF \E i \in 1..reach : lx.toks[i].un THEN "number_followed_by_digit_name_or_dot"
+  ELSE IF perr THEN fr.pr.un ELSE ""
+Unspecified(chars) == LET lx == Lex(chars) IN UnspecifiedText(lx, FrontOf(lx, {})) # ""
+
 \* ------------------------------------------------------------------ Print (token level)
 \* Inverse of Parse on ASTs: the token-kind sequence the AST was built from.  Leaves carry
 \* their token kind in v.
